@@ -23,7 +23,7 @@ claimed.update({
  "C10": ("QueryToString then ParseQuery (and again) executed symbolically over every small tree with symbolic first-leaf contents; both sides normalised; stability of the second text.", "§4 C10", "Symbolic placeholders up to 4 digits only (the %d/Atoi round trip does not bit-blast; 6 concrete boundary values up to MaxInt32 are added). Outside: deeper/wider trees."),
  "C11": ("fileConn.QueryContext / Prepare / fileStmt.Query / NumInput / ReplacePlaceholders / Execute executed with symbolic argument strings on a fixed index; rows compared with a reference evaluation; too few arguments must give an error, never a panic.", "§4 C11", "Outside: database/sql itself, integer arguments, the gRPC statement path."),
  "C12": ("updogDriver.Open/openFile, QueryContext/Prepare, newRows, rows.Columns/Next/ColumnType* executed over forked datasets, 10 query texts and 4 DSN option sets; rows compared with an independent SQL-style reference.", "§4 C12", "Datasets and query texts are enumerated by forking (small alphabet); the solver's role here is path feasibility. Outside: net/url, database/sql."),
- "C13": ("server.Query, convert.ToQuery/ToProtobufResult/ToResult executed with symbolic ids, counts and strings; batch order, id defaulting, all-or-error, field-by-field equality with Index.Execute.", "§4 C13", "The grpc:// driver path (grpcStmt.query with a stub client) is not exercised in this round. Outside: wire encoding, transport."),
+ "C13": ("server.Query, convert.ToQuery/ToProtobufResult/ToResult executed with symbolic ids, counts and strings; batch order, id defaulting, all-or-error, field-by-field equality with Index.Execute.", "§4 C13", "The grpc:// driver path runs against a stub client (the network and the real server process are outside). Outside: wire encoding, transport."),
  "C14": ("server.Query/convert.toExpr/Index.Execute executed on every request tree within the bound in which any wire-optional pointer may be nil; every panic path is a violation; follow-up probe must be correct.", "§4 C14", "Outside: protobuf decoding of raw bytes, deep nesting (stack)."),
  "C17": ("Driver handle cache (openFile, fileConn.Close/QueryContext) on the bbolt model whose exclusive file lock turns a second open of a held file into a blocked goroutine: all short sequential histories and all bounded-preemption interleavings of two goroutines; deadlock, panic, wrong rows or a lock left behind are violations.", "§4 C17", "Outside: database/sql's pool, >2 goroutines, >2 files."),
  "C18": ("Both AddRow implementations under 2 goroutines: lockset over all accesses (race detector confirms natively) and bounded-preemption interleavings; ids a permutation, flushed index equals sequential insertion (unique tags).", "§4 C18", "Outside: more goroutines/rows; 1000-row temp commits."),
